@@ -207,3 +207,62 @@ def check(assertions, ms, seq_mode, values=None):
         return 'unknown', None, None
     finally:
         STATS['time'] += time.time() - t0
+
+
+def abstract_term(t, memo, nonneg):
+    """Replace sequence-theory atoms by fresh constants: Int-valued terms with
+    non-arithmetic heads become Int constants, Bool atoms over sequences become
+    Bool constants.  The result is implied-by-abstraction sound: if the
+    abstraction is unsat, so is the original."""
+    ARITH = (z3.Z3_OP_ADD, z3.Z3_OP_SUB, z3.Z3_OP_MUL, z3.Z3_OP_UMINUS, z3.Z3_OP_IDIV, z3.Z3_OP_MOD,
+             z3.Z3_OP_LE, z3.Z3_OP_LT, z3.Z3_OP_GE, z3.Z3_OP_GT, z3.Z3_OP_AND, z3.Z3_OP_OR, z3.Z3_OP_NOT,
+             z3.Z3_OP_IMPLIES, z3.Z3_OP_ITE, z3.Z3_OP_XOR, z3.Z3_OP_ANUM, z3.Z3_OP_TRUE, z3.Z3_OP_FALSE,
+             z3.Z3_OP_DIV, z3.Z3_OP_REM, z3.Z3_OP_IFF)
+
+    def fresh_for(x):
+        k = x.get_id()
+        if x.sort().kind() == z3.Z3_BOOL_SORT:
+            return z3.Bool('abs!%d' % k)
+        c = z3.Int('abs!%d' % k)
+        if z3.is_app(x) and x.decl().kind() == z3.Z3_OP_SEQ_LENGTH:
+            nonneg[k] = c
+        return c
+
+    def go(x):
+        k = x.get_id()
+        r = memo.get(k)
+        if r is not None:
+            return r[0]
+        if z3.is_quantifier(x) or not z3.is_app(x):
+            out = fresh_for(x) if x.sort().kind() in (z3.Z3_BOOL_SORT, z3.Z3_INT_SORT) else None
+        else:
+            sk = x.sort().kind()
+            dk = x.decl().kind()
+            if sk not in (z3.Z3_BOOL_SORT, z3.Z3_INT_SORT):
+                out = None
+            elif x.num_args() == 0:
+                out = x if dk != z3.Z3_OP_UNINTERPRETED or sk in (z3.Z3_BOOL_SORT, z3.Z3_INT_SORT) else None
+            elif dk in ARITH or (dk in (z3.Z3_OP_EQ, z3.Z3_OP_DISTINCT)
+                                 and x.arg(0).sort().kind() in (z3.Z3_BOOL_SORT, z3.Z3_INT_SORT)):
+                ch = [go(c) for c in x.children()]
+                out = fresh_for(x) if any(c is None for c in ch) else x.decl()(*ch)
+            else:
+                out = fresh_for(x)
+        memo[k] = (out, x)
+        return out
+    return go(t)
+
+
+
+def abstract_unsat(assertions, ms=2000):
+    """True if the arithmetic abstraction of the assertions is unsatisfiable (then so are they)."""
+    memo, nonneg = {}, {}
+    s = z3.Solver()
+    s.set('rlimit', int(ms) * RLIMIT_PER_MS)
+    for a in assertions:
+        t = abstract_term(a, memo, nonneg)
+        if t is not None:
+            s.add(t)
+    for c in nonneg.values():
+        s.add(c >= 0)
+    return s.check() == z3.unsat
